@@ -118,6 +118,14 @@ def locate(fn: ast.AST, locator) -> ast.AST:
             if ast.unparse(node.value) == var and isinstance(node.slice, ast.Slice) and node.slice.upper is not None:
                 return node.slice.upper
         raise Unsupported(f"slice of {var} not found")
+    if kind == "slice_from_n":
+        # the lower bound of the n-th subscript slice of the named variable that has one (whether or not it also has an upper bound)
+        var, n = locator[1], locator[2]
+        hits = [node.slice.lower for node in sorted((x for x in ast.walk(fn) if isinstance(x, ast.Subscript)), key=lambda x: (x.lineno, x.col_offset))
+                if ast.unparse(node.value) == var and isinstance(node.slice, ast.Slice) and node.slice.step is None and node.slice.lower is not None]
+        if len(hits) <= n:
+            raise Unsupported(f"slice #{n} of {var} not found ({len(hits)} such slices)")
+        return hits[n]
     if kind in ("slice_upper_n", "slice_lower_n"):
         # the n-th subscript slice of the named variable that has an upper bound / that is open-ended with a lower bound (source order)
         var, n = locator[1], locator[2]
@@ -431,6 +439,15 @@ KERNELS = [
          subst={}, params="", obl="", call="", model="14", imports=["Model.Py"], unfold=[]),
     dict(name="EptResFloorAdvance", props=["C12", "C18"], file="_epm.py", func="EptMapResult.unpack", loc=('slice_lower_n', 'view', 3), typ="Nat",
          subst={'len(floor.lhs)': 'n', 'len(floor.rhs)': 'm'}, params="(n m : Nat)", obl="(n m : Nat)", call="n m", model="n + m + 5", imports=["Model.Py"], unfold=[]),
+    # `PDU.unpack`: the body is [16, frag_len) of the data, the security trailer its last auth_len + 8 octets, the body proper what precedes them
+    dict(name="PduBodyStart", props=["C12", "C14", "C16"], file="_rpc/_pdu.py", func="PDU.unpack", loc=("slice_from_n", "view", 0), typ="Nat",
+         subst={}, params="", obl="", call="", model="16", imports=["Model.Py"], unfold=[]),
+    dict(name="PduBodyEnd", props=["C12", "C14", "C16"], file="_rpc/_pdu.py", func="PDU.unpack", loc=("slice_upper_n", "view", 0), typ="Nat",
+         subst={"header.frag_len": "n"}, params="(n : Nat)", obl="(n : Nat)", call="n", model="n", imports=["Model.Py"], unfold=[]),
+    dict(name="PduTrailerFrom", props=["C12", "C14", "C16"], file="_rpc/_pdu.py", func="PDU.unpack", loc=("slice_from_n", "view", 1), typ="Int",
+         subst={"header.auth_len": "a"}, params="(a : Int)", obl="(a : Nat)", call="(a : Int)", model="(-((a : Int) + 8))", model_is_nat=False, imports=["Model.Py"], unfold=[]),
+    dict(name="PduBodyTo", props=["C12", "C14", "C16"], file="_rpc/_pdu.py", func="PDU.unpack", loc=("slice_upper_n", "view", 1), typ="Int",
+         subst={"header.auth_len": "a"}, params="(a : Int)", obl="(a : Nat)", call="(a : Int)", model="(-((a : Int) + 8))", model_is_nat=False, imports=["Model.Py"], unfold=[]),
     # how far `VerificationTrailer.unpack` and `Command.unpack` move: past the 8-octet signature, past each command (4 + its value), the value's end
     dict(name="VtSkipSignature", props=["C12"], file="_rpc/_verification.py", func="VerificationTrailer.unpack", loc=("slice_lower_n", "view", 0), typ="Nat",
          subst={}, params="", obl="", call="", model="8", imports=["Model.Py"], unfold=[]),
